@@ -13,42 +13,6 @@ set_option linter.unusedSimpArgs false
 
 namespace Visit
 
-def fieldMaskOfA (cfg : Cfg) (i : Nat) : Option Mask :=
-  match cfg.cls with
-  | some _ => if cfg.fieldsI then cfg.field i else none
-  | none => none
-
-def methodCfgOfA (cfg : Cfg) (i : Nat) : Option MethodCfg :=
-  match cfg.cls with
-  | some _ => if cfg.methodsI then cfg.method i else none
-  | none => none
-
-def codeMaskOfA (cfg : Cfg) (i : Nat) : Option Mask :=
-  match methodCfgOfA cfg i with
-  | some mc => if mc.code then mc.codeV else none
-  | none => none
-
-/-- what a visitor configured by `cfg` receives of an event of the full replay -/
-def projA (cfg : Cfg) (e : Ev) : Option Ev :=
-  match e with
-  | .classBegin _ => some e
-  | .cAttr unk k _ => match cfg.cls with | some m => keepIf (m (evBit unk k)) e | none => none
-  | .recBegin _ _ => match cfg.cls with | some m => keepIf (m .record) e | none => none
-  | .rAttr r unk k _ => match recMaskOf cfg r with | some rm => keepIf (rm (evBit unk k)) e | none => none
-  | .recEnd r => keepIf (recMaskOf cfg r).isSome e
-  | .classFlags _ _ | .classEnd => keepIf cfg.cls.isSome e
-  | .fieldBegin _ _ => keepIf (cfg.cls.isSome && cfg.fieldsI) e
-  | .fAttr i unk k _ => match fieldMaskOfA cfg i with | some fm => keepIf (fm (evBit unk k)) e | none => none
-  | .fieldFlags i _ _ | .fieldEnd i => keepIf (fieldMaskOfA cfg i).isSome e
-  | .methodBegin _ _ => keepIf (cfg.cls.isSome && cfg.methodsI) e
-  | .mAttr i unk k _ => match methodCfgOfA cfg i with | some mc => keepIf (mc.mask (evBit unk k)) e | none => none
-  | .methodFlags i _ _ | .methodEnd i => keepIf (methodCfgOfA cfg i).isSome e
-  | .codeBegin i => match methodCfgOfA cfg i with | some mc => keepIf mc.code e | none => none
-  | .codeMaxs i _ | .codeExc i _ | .codeEnd i | .codeInsns i _ _ => keepIf (codeMaskOfA cfg i).isSome e
-  | .kAttr i unk k _ => match codeMaskOfA cfg i with | some cm => keepIf (cm (evBit unk k)) e | none => none
-  | .codeLines i _ => match codeMaskOfA cfg i with | some cm => keepIf (cm .lineNumberTable) e | none => none
-  | .codeLocals i _ => match codeMaskOfA cfg i with | some cm => keepIf (cm .lvt || cm .lvtt) e | none => none
-
 section projAEqs
 variable (cfg : Cfg)
 @[simp] theorem projA_classBegin (h : Nat) : projA cfg (.classBegin h) = some (.classBegin h) := rfl
@@ -408,9 +372,9 @@ theorem projA_eq_proj (cfg : Cfg) (hf : cfg.fieldsI = true) (hm : cfg.methodsI =
     simp only [codeMaskOfA, methodCfgOfA, codeMaskOf, hm, if_true]
     cases cfg.cls <;> cases cfg.method i <;> simp
   have hfm : ∀ i, fieldMaskOfA cfg i = (match cfg.cls with | some _ => cfg.field i | none => none) := by
-    intro i; simp only [fieldMaskOfA, hf, if_true]
+    intro i; simp only [fieldMaskOfA, hf, if_true]; cases cfg.cls <;> rfl
   have hmm : ∀ i, methodCfgOfA cfg i = (match cfg.cls with | some _ => cfg.method i | none => none) := by
-    intro i; simp only [methodCfgOfA, hm, if_true]
+    intro i; simp only [methodCfgOfA, hm, if_true]; cases cfg.cls <;> rfl
   cases e with
   | fieldBegin i h => simp [hf]
   | fAttr i unk k pay => simp only [projA_fAttr, proj_fAttr, hfm]; cases cfg.cls <;> cases cfg.field i <;> simp
